@@ -89,6 +89,8 @@ fn payment(i: usize) -> (PaymentPreimage, PaymentHash) {
 // ------------------------------------------------------------------ world: node + channel
 
 struct World {
+    // the store the signer persists to (MemoryKVVStore behind KVVPersister / JSON), for restarts
+    pw: vharness::World,
     node_ctx: TestNodeContext,
     chan_ctx: TestChannelContext,
     key: OutPoint,
@@ -104,10 +106,10 @@ const TO_HOLDER: u64 = 2_000_000;
 const TO_CP: u64 = 900_000;
 
 fn make_world(sc: &Scenario) -> World {
-    let node_ctx = TestNodeContext {
-        node: init_node(REGTEST_NODE_CONFIG, TEST_SEED[1]),
-        secp_ctx: Secp256k1::signing_only(),
-    };
+    let mut seed = [0u8; 32];
+    seed.copy_from_slice(&hex::decode(TEST_SEED[1]).expect("seed"));
+    let pw = vharness::World::new(vharness::World::default_policy(), seed, lightning_signer::signer::derive::KeyDerivationStyle::Native);
+    let node_ctx = TestNodeContext { node: pw.new_node(), secp_ctx: Secp256k1::signing_only() };
     let channel_amount = 3_000_000;
     let stype = SpendType::P2wpkh;
     let incoming = channel_amount + 2_000_000;
@@ -133,92 +135,80 @@ fn make_world(sc: &Scenario) -> World {
 
     // the commitment transaction of this scenario, and the signer state that knows about it
     let node = node_ctx.node.clone();
+    let (offered, received) = htlc_lists(sc);
+    let to_holder = if sc.our_output { TO_HOLDER } else { 0 };
+    let commitment = if sc.closer_cp {
+        let point = make_test_pubkey(12);
+        let oic = Channel::htlcs_info2_to_oic(&offered, &received);
+        node.with_channel(&chan_ctx.channel_id, |chan| {
+            let ctx = chan.make_counterparty_commitment_tx(&point, COMMIT_NUM, FEERATE, to_holder, TO_CP, oic.clone());
+            Ok(ctx.trust().built_transaction().transaction.clone())
+        })
+        .expect("cp commitment")
+    } else {
+        let c = channel_commitment(&node_ctx, &chan_ctx, COMMIT_NUM, FEERATE, to_holder, TO_CP, offered.clone(), received.clone());
+        c.tx.as_ref().unwrap().trust().built_transaction().transaction.clone()
+    };
+    apply_signer_state(&node, &chan_ctx.channel_id, sc);
+    let h0 = node.get_tracker().height();
+    World { pw, node_ctx, chan_ctx, key, funding: tx, commitment, h0, stack: vec![] }
+}
+
+const COMMIT_NUM: u64 = 1;
+
+fn htlc_lists(sc: &Scenario) -> (Vec<HTLCInfo2>, Vec<HTLCInfo2>) {
     let mut offered = vec![];
     let mut received = vec![];
     for (i, h) in sc.htlcs.iter().enumerate() {
-        let (pre, hash) = payment(i);
+        let (_, hash) = payment(i);
         let info = HTLCInfo2 { value_sat: h.amount_sat, payment_hash: hash, cltv_expiry: 100 + i as u32 };
         if h.offered {
             offered.push(info)
         } else {
             received.push(info)
         }
+    }
+    (offered, received)
+}
+
+/// what the signer knows about the commitments (preimages, the holder / counterparty
+/// commitment records); applied when the world is made and again after a restart (the
+/// monitor and tracker state always come from the store)
+fn apply_signer_state(node: &Arc<Node>, channel_id: &lightning_signer::channel::ChannelId, sc: &Scenario) {
+    let (offered, received) = htlc_lists(sc);
+    for (i, h) in sc.htlcs.iter().enumerate() {
         if h.preimage_known {
+            let (pre, hash) = payment(i);
             let mut p = RoutedPayment::new();
             p.preimage = Some(pre);
             node.get_state().payments.insert(hash, p);
         }
     }
     let to_holder = if sc.our_output { TO_HOLDER } else { 0 };
-    let commit_num = 1u64;
-    let commitment = if sc.closer_cp {
-        let point = make_test_pubkey(12);
-        let oic = Channel::htlcs_info2_to_oic(&offered, &received);
-        node.with_channel(&chan_ctx.channel_id, |chan| {
-            let ctx = chan.make_counterparty_commitment_tx(&point, commit_num, FEERATE, to_holder, TO_CP, oic.clone());
-            let next = if sc.no_info { commit_num + 4 } else { commit_num + 1 };
-            chan.enforcement_state.set_next_counterparty_commit_num_for_testing(next, point);
-            chan.enforcement_state.current_counterparty_commit_info = Some(CommitmentInfo2::new(
-                true,
-                to_holder,
-                TO_CP,
-                offered.clone(),
-                received.clone(),
-                FEERATE,
-            ));
-            Ok(ctx.trust().built_transaction().transaction.clone())
-        })
-        .expect("cp commitment")
-    } else {
-        let c = channel_commitment(&node_ctx, &chan_ctx, commit_num, FEERATE, to_holder, TO_CP, offered.clone(), received.clone());
-        let t = c.tx.as_ref().unwrap().trust().built_transaction().transaction.clone();
-        node.with_channel(&chan_ctx.channel_id, |chan| {
-            let next = if sc.no_info { commit_num + 4 } else { commit_num + 1 };
-            chan.enforcement_state.set_next_holder_commit_num_for_testing(next);
-            chan.enforcement_state.current_holder_commit_info = Some(CommitmentInfo2::new(
-                false,
-                TO_CP,
-                to_holder,
-                offered.clone(),
-                received.clone(),
-                FEERATE,
-            ));
-            Ok(())
-        })
-        .expect("holder commitment state");
-        t
-    };
-    if sc.lockstep && !sc.no_info {
-        // the other side's commitment with the same number and the mirrored HTLC set
-        node.with_channel(&chan_ctx.channel_id, |chan| {
-            if sc.closer_cp {
-                chan.enforcement_state.set_next_holder_commit_num_for_testing(commit_num + 1);
-                chan.enforcement_state.current_holder_commit_info = Some(CommitmentInfo2::new(
-                    false,
-                    TO_CP,
-                    to_holder,
-                    received.clone(), // what the counterparty receives, we offer
-                    offered.clone(),
-                    FEERATE,
-                ));
-            } else {
-                let point = make_test_pubkey(12);
-                chan.enforcement_state.set_next_counterparty_commit_num_for_testing(commit_num + 1, point);
-                chan.enforcement_state.current_counterparty_commit_info = Some(CommitmentInfo2::new(
-                    true,
-                    to_holder,
-                    TO_CP,
-                    received.clone(), // what we receive, the counterparty offers
-                    offered.clone(),
-                    FEERATE,
-                ));
+    let next = if sc.no_info { COMMIT_NUM + 4 } else { COMMIT_NUM + 1 };
+    let holder_info = |o: &Vec<HTLCInfo2>, r: &Vec<HTLCInfo2>| CommitmentInfo2::new(false, TO_CP, to_holder, o.clone(), r.clone(), FEERATE);
+    let cp_info = |o: &Vec<HTLCInfo2>, r: &Vec<HTLCInfo2>| CommitmentInfo2::new(true, to_holder, TO_CP, o.clone(), r.clone(), FEERATE);
+    node.with_channel(channel_id, |chan| {
+        let es = &mut chan.enforcement_state;
+        if sc.closer_cp {
+            es.set_next_counterparty_commit_num_for_testing(next, make_test_pubkey(12));
+            es.current_counterparty_commit_info = Some(cp_info(&offered, &received));
+            if sc.lockstep && !sc.no_info {
+                // the other side's commitment with the same number and the mirrored HTLC set
+                es.set_next_holder_commit_num_for_testing(COMMIT_NUM + 1);
+                es.current_holder_commit_info = Some(holder_info(&received, &offered));
             }
-            Ok(())
-        })
-        .expect("lockstep state");
-    }
-    let h0 = node.get_tracker().height();
-    World { node_ctx, chan_ctx, key, funding: tx, commitment, h0, stack: vec![] }
+        } else {
+            es.set_next_holder_commit_num_for_testing(next);
+            es.current_holder_commit_info = Some(holder_info(&offered, &received));
+            if sc.lockstep && !sc.no_info {
+                es.set_next_counterparty_commit_num_for_testing(COMMIT_NUM + 1, make_test_pubkey(12));
+                es.current_counterparty_commit_info = Some(cp_info(&received, &offered));
+            }
+        }
+        Ok(())
+    })
+    .expect("signer state");
 }
 
 // ------------------------------------------------------------------ the transactions of a scenario
@@ -520,8 +510,28 @@ enum Outcome {
 
 #[derive(Clone, Copy, PartialEq, Debug)]
 enum Mode {
-    Compact,
-    Streamed,
+    Compact,  // filter proof whose SPV part carries every transaction of the block
+    Streamed, // the block itself
+    Watched,  // filter proof whose SPV part carries what the tracker's watch sets match
+              // (nothing at all for a block that does not concern the signer)
+}
+
+/// the proof a chain follower sends: the SPV part holds the transactions matched by the
+/// tracker's watches (the reverse watches for a disconnection) and their descendants
+fn watched_proof(
+    tracker: &lightning_signer::chain::tracker::ChainTracker<ChainMonitor>,
+    block: &Block,
+    prev_filter_header: &lightning_signer::bitcoin::hash_types::FilterHeader,
+    height: u32,
+    reverse: bool,
+) -> TxoProof {
+    let base = TxoProof::prove_unchecked(block, prev_filter_header, height);
+    let (txids, ops) = if reverse { tracker.get_all_reverse_watches() } else { tracker.get_all_forward_watches() };
+    let (spv, _, _) = lightning_signer::txoo::spv::SpvProof::build(block, &txids, &ops);
+    match base.proof {
+        ProofType::Filter(content, _) => TxoProof { attestations: base.attestations, proof: ProofType::Filter(content, spv) },
+        _ => panic!("expected a filter proof"),
+    }
 }
 
 fn coinbase(h: u32) -> Transaction {
@@ -614,7 +624,7 @@ impl Driver {
             let hash = block.block_hash();
             let mon = self.mon.clone();
             let r = catch_unwind(AssertUnwindSafe(|| match mode {
-                Mode::Compact => mon.on_add_block(&all, &hash),
+                Mode::Compact | Mode::Watched => mon.on_add_block(&all, &hash),
                 Mode::Streamed => {
                     self.push_block(&all, &hash, Some(&block.header), true);
                     mon.on_add_streamed_block_end(&hash)
@@ -644,6 +654,10 @@ impl Driver {
                 let proof = TxoProof::prove_unchecked(&block, &prev.1, tracker.height() + 1);
                 let r = match mode {
                     Mode::Compact => tracker.add_block(block.header, proof),
+                    Mode::Watched => {
+                        let wp = watched_proof(&tracker, &block, &prev.1, tracker.height() + 1, false);
+                        tracker.add_block(block.header, wp)
+                    }
                     Mode::Streamed => {
                         let proof = TxoProof { attestations: proof.attestations, proof: ProofType::ExternalBlock() };
                         let bytes = serialize(&block);
@@ -671,7 +685,7 @@ impl Driver {
             let prev = self.w.node_ctx.node.get_tracker().tip().0;
             let header = make_block(prev, all.clone()).header;
             let r = catch_unwind(AssertUnwindSafe(|| match mode {
-                Mode::Compact => mon.on_remove_block(&all, &hash),
+                Mode::Compact | Mode::Watched => mon.on_remove_block(&all, &hash),
                 Mode::Streamed => {
                     self.push_block(&all, &hash, Some(&header), true);
                     mon.on_remove_streamed_block_end(&hash)
@@ -697,7 +711,9 @@ impl Driver {
             let r = catch_unwind(AssertUnwindSafe(|| {
                 let mut tracker = node.get_tracker();
                 let proof = TxoProof::prove_unchecked(&block, &prev.1, tracker.height());
-                let proof = if mode == Mode::Streamed && std::env::var("C14_TRY_STREAMED_REMOVE").is_ok() {
+                let proof = if mode == Mode::Watched {
+                    watched_proof(&tracker, &block, &prev.1, tracker.height(), true)
+                } else if mode == Mode::Streamed && std::env::var("C14_TRY_STREAMED_REMOVE").is_ok() {
                     let bytes = serialize(&block);
                     tracker.block_chunk(block.block_hash(), 0, &bytes).expect("block_chunk");
                     TxoProof { attestations: proof.attestations, proof: ProofType::ExternalBlock() }
@@ -715,6 +731,45 @@ impl Driver {
                 Ok(false) => Outcome::Rejected,
                 Err(_) => Outcome::Panicked,
             }
+        }
+    }
+
+    /// a signer restart: the tracker (with the monitors' states and listen slots) and the
+    /// channel are persisted the way the request handler does after every request, a new Node
+    /// is restored from the store alone, and the history continues on it
+    fn restart(&mut self, sc: &Scenario) -> Outcome {
+        assert!(!self.direct);
+        let node = self.w.node_ctx.node.clone();
+        let id = node.get_id();
+        let chan_id = self.w.chan_ctx.channel_id.clone();
+        let pw = &self.w.pw;
+        let key = self.w.key;
+        let r = catch_unwind(AssertUnwindSafe(|| {
+            use lightning_signer::persist::Persist;
+            {
+                let tracker = node.get_tracker();
+                pw.persister.update_tracker(&id, &tracker).expect("update_tracker");
+            }
+            node.with_channel(&chan_id, |chan| {
+                pw.persister.update_channel(&id, chan).expect("update_channel");
+                Ok(())
+            })
+            .expect("with_channel");
+            let node2 = pw.restart(&id);
+            apply_signer_state(&node2, &chan_id, sc);
+            let mon = {
+                let tracker = node2.get_tracker();
+                tracker.listeners.get(&key).expect("listener after restart").0.clone()
+            };
+            (node2, mon)
+        }));
+        match r {
+            Ok((node2, mon)) => {
+                self.w.node_ctx = TestNodeContext { node: node2, secp_ctx: Secp256k1::signing_only() };
+                self.mon = mon;
+                Outcome::Done
+            }
+            Err(_) => Outcome::Panicked,
         }
     }
 
@@ -749,6 +804,7 @@ enum Step {
     Remove(Mode),
     PartialAdd(Vec<u64>),
     PartialRemove(Vec<u64>),
+    Restart,
 }
 
 struct CaseOut {
@@ -772,6 +828,7 @@ fn run_case(sc: &Scenario, u: &Universe, steps: &[Step], direct: bool, forgot: b
     let mut max_depth = 0usize;
     let mut cur_depth = 0usize;
     let mut rejected = 0u64;
+    let mut n_restarts = 0u64;
     let real = |b: &Vec<u64>| -> Vec<Transaction> { b.iter().map(|i| u.txs[i].real.clone()).collect() };
     for st in steps {
         let ok = match st {
@@ -807,10 +864,28 @@ fn run_case(sc: &Scenario, u: &Universe, steps: &[Step], direct: bool, forgot: b
                 jsteps.push(json!({"partial_remove": b}));
                 d.partial(&real(b), false)
             }
+            Step::Restart => {
+                coq_steps.push("SRestart".to_string());
+                jsteps.push(json!({"restart": "persist tracker + channel, restore the node from the store"}));
+                n_restarts += 1;
+                d.restart(sc)
+            }
         };
         if ok == Outcome::Rejected && admissible {
-            eprintln!("harness error: the tracker refused a block of an admissible history");
-            std::process::exit(3);
+            // the model has no refusal on an admissible history (C14_no_abort): the channel's
+            // view stays on the abandoned branch (and the signer's handlers abort on it)
+            let kind = if matches!(st, Step::Remove(_)) { "disconnect" } else { "connect" };
+            coq_steps.pop();
+            let last = jsteps.len() - 1;
+            if violation.is_none() {
+                violation = Some(json!({
+                    "what": format!("the tracker refused to {} a block of an admissible history{}; the channel's view no longer follows the best chain",
+                                    kind, if n_restarts > 0 { " after a restart from the store" } else { "" }),
+                    "step": last,
+                }));
+            }
+            rejected += 1;
+            break;
         }
         if ok == Outcome::Rejected {
             // malformed stream only: the tracker refused the block (TXOO validation rejects a
@@ -881,7 +956,7 @@ fn run_case(sc: &Scenario, u: &Universe, steps: &[Step], direct: bool, forgot: b
         }
         // the property itself: after a disconnection the view must be the one of a fresh
         // monitor that connected only the surviving chain
-        if admissible && matches!(st, Step::Remove(_)) && violation.is_none() {
+        if admissible && matches!(st, Step::Remove(_) | Step::Restart) && violation.is_none() {
             let mut f = Driver::new(sc, direct, forgot);
             let mut fok = true;
             for b in chain.iter() {
@@ -893,7 +968,11 @@ fn run_case(sc: &Scenario, u: &Universe, steps: &[Step], direct: bool, forgot: b
                 let fo = f.obs(u);
                 if fo.view != o.view {
                     violation = Some(json!({
-                        "what": "after a disconnection the channel's view differs from a fresh replay of the surviving best chain",
+                        "what": if matches!(st, Step::Restart) {
+                            "after a restart from the store the channel's view differs from a fresh replay of the best chain"
+                        } else {
+                            "after a disconnection the channel's view differs from a fresh replay of the surviving best chain"
+                        },
                         "step": jsteps.len() - 1,
                         "view": o.view,
                         "fresh_replay_view": fo.view,
@@ -922,6 +1001,7 @@ fn run_case(sc: &Scenario, u: &Universe, steps: &[Step], direct: bool, forgot: b
         "removes": n_removes,
         "max_reorg_depth": max_depth,
         "rejected_by_tracker": rejected,
+        "restarts": n_restarts,
     });
     CaseOut { coq, json, nontrivial: n_removes > 0 && chain.len() + n_removes >= 2, aborted, monitor_violation: violation }
 }
@@ -1031,7 +1111,11 @@ fn random_history(rng: &mut Rng, u: &Universe, len: usize, malformed: bool) -> V
     let bad = [M2, MM, S2, H0B, X0B];
     let mut removed_run = 0;
     for _ in 0..len {
-        let mode = if rng.chance(1, 3) { Mode::Streamed } else { Mode::Compact };
+        let mode = match rng.below(3) {
+            0 => Mode::Streamed,
+            1 => Mode::Watched,
+            _ => Mode::Compact,
+        };
         if !chain.is_empty() && removed_run < 4 && rng.chance(2, 5) {
             chain.pop();
             removed_run += 1;
@@ -1075,6 +1159,15 @@ fn emit_case(c: &CaseOut, stats: &mut BTreeMap<String, u64>) {
         *stats.entry("monitor_violations".into()).or_default() += 1;
     }
     *stats.entry(format!("driver_{}", c.json["driver"].as_str().unwrap())).or_default() += 1;
+    *stats.entry("restarts".into()).or_default() += c.json["restarts"].as_u64().unwrap();
+    for st in c.json["steps"].as_array().unwrap() {
+        if st["mode"] == "Watched" {
+            *stats.entry(if st.get("remove").is_some() { "watched_removes" } else { "watched_adds" }.into()).or_default() += 1;
+            if st["ids"].as_array().map(|a| a.is_empty()).unwrap_or(false) {
+                *stats.entry("watched_empty_blocks".into()).or_default() += 1;
+            }
+        }
+    }
     if c.json["scenario"].as_str().unwrap().ends_with("-lockstep") {
         *stats.entry("lockstep_cases".into()).or_default() += 1;
     }
@@ -1159,18 +1252,44 @@ fn systematic(args: &Args) {
         let u = &unis[si];
         // alternate drivers and delivery modes deterministically
         let direct = k % 3 == 2;
-        let steps: Vec<Step> = steps
+        let mut steps: Vec<Step> = steps
             .iter()
             .enumerate()
             .map(|(j, s)| {
                 let streamed = (k + j) % 4 == 1;
+                // what the chain follower really sends: only what the watches match
+                let watched = !direct && (k + j) % 4 >= 2;
                 match s {
-                    Step::Add(b, _) => Step::Add(b.clone(), if streamed { Mode::Streamed } else { Mode::Compact }),
-                    Step::Remove(_) => Step::Remove(if streamed && direct { Mode::Streamed } else { Mode::Compact }),
+                    Step::Add(b, _) => Step::Add(
+                        b.clone(),
+                        if streamed {
+                            Mode::Streamed
+                        } else if watched {
+                            Mode::Watched
+                        } else {
+                            Mode::Compact
+                        },
+                    ),
+                    Step::Remove(_) => Step::Remove(if streamed && direct {
+                        Mode::Streamed
+                    } else if watched {
+                        Mode::Watched
+                    } else {
+                        Mode::Compact
+                    }),
                     o => o.clone(),
                 }
             })
             .collect();
+        if !direct {
+            // a signer restart: right before the reorganisation, or early in the history
+            let first_remove = steps.iter().position(|s| matches!(s, Step::Remove(_)));
+            match (k % 4, first_remove) {
+                (0, Some(i)) | (3, Some(i)) => steps.insert(i, Step::Restart),
+                (1, _) if steps.len() >= 2 => steps.insert(2.min(steps.len()), Step::Restart),
+                _ => {}
+            }
+        }
         let c = run_case(sc, u, &steps, direct, false, true, origin);
         emit_case(&c, &mut stats);
     }
@@ -1207,10 +1326,31 @@ fn random(args: &Args, malformed: bool) {
             steps = steps
                 .into_iter()
                 .map(|s| match s {
-                    Step::Remove(_) => Step::Remove(Mode::Compact),
+                    Step::Remove(Mode::Streamed) => Step::Remove(Mode::Compact),
                     o => o,
                 })
                 .collect();
+        }
+        if malformed {
+            // the watch sets only cover admissible histories
+            steps = steps
+                .into_iter()
+                .map(|s| match s {
+                    Step::Remove(Mode::Watched) => Step::Remove(Mode::Compact),
+                    Step::Add(b, Mode::Watched) => Step::Add(b, Mode::Compact),
+                    o => o,
+                })
+                .collect();
+        } else if !direct {
+            // signer restarts anywhere in the history
+            let mut i = 1;
+            while i <= steps.len() {
+                if rng.chance(1, 5) {
+                    steps.insert(i, Step::Restart);
+                    i += 1;
+                }
+                i += 1;
+            }
         }
         if malformed && direct && rng.chance(1, 3) {
             // a monitor created in the middle of a stream: events without a block start
